@@ -2,6 +2,8 @@ import PorepyVerif.C02.Props
 #print axioms PorepyVerif.C02.parseBin_eq_directBin
 #print axioms PorepyVerif.C02.parse_eq_direct
 #print axioms PorepyVerif.C02.evaluate_eq_direct
+#print axioms PorepyVerif.C02.evaluate_list_cache_transparent
+#print axioms PorepyVerif.C02.evaluate_list_eq_map
 #print axioms PorepyVerif.C02.parse_val_noderiv
 #print axioms PorepyVerif.C02.evaluate_val_noderiv
 #print axioms PorepyVerif.C02.prev_leaf_is_stored
